@@ -10,7 +10,7 @@ use nom::combinator::{
     into, map, map_opt, map_res, opt, recognize, value, verify,
 };
 use nom::multi::{fold_many0, fold_many1, many_m_n, many0};
-use nom::sequence::{delimited, preceded, terminated};
+use nom::sequence::{delimited, pair, preceded, terminated};
 use std::str::from_utf8;
 
 pub fn css_string_any(input: Span) -> PResult<CssString> {
@@ -62,9 +62,9 @@ pub fn css_string_dq(input: Span) -> PResult<CssString> {
     let (input, parts) = delimited(
         tag("\""),
         many0(alt((
-            map_res(is_not("\""), input_to_string),
+            map_res(is_not("\"\\"), input_to_string),
             value("\"".to_string(), tag("\\\"")),
-            normalized_escaped_char_q,
+            verbatim_escape,
         ))),
         tag("\""),
     )
@@ -76,14 +76,21 @@ pub fn css_string_sq(input: Span) -> PResult<CssString> {
     let (input, parts) = delimited(
         tag("'"),
         many0(alt((
-            map_res(is_not("'"), input_to_string),
+            map_res(is_not("'\\"), input_to_string),
             value(String::from("'"), tag("\\'")),
-            normalized_escaped_char_q,
+            verbatim_escape,
         ))),
         tag("'"),
     )
     .parse(input)?;
     Ok((input, CssString::new(parts.join(""), Quotes::Single)))
+}
+
+/// A backslash and the character after it, kept as written (escapes
+/// other than the quote itself are stored verbatim in a quoted string).
+fn verbatim_escape(input: Span) -> PResult<String> {
+    map_res(recognize(pair(tag("\\"), take_char)), input_to_string)
+        .parse(input)
 }
 
 fn normalized_first_escaped_char(input: Span) -> PResult<String> {
@@ -105,20 +112,6 @@ fn normalized_escaped_char(input: Span) -> PResult<String> {
         format!("\\{c}")
     } else {
         format!("\\{:x} ", u32::from(c))
-    };
-    Ok((rest, result))
-}
-
-fn normalized_escaped_char_q(input: Span) -> PResult<String> {
-    let (rest, c) = escaped_char(input)?;
-    let result = if c == '\0' {
-        char::REPLACEMENT_CHARACTER.to_string()
-    } else if c.is_control() && c != '\t' {
-        format!("\\{:x} ", u32::from(c))
-    } else if c == '-' || c == '\\' || c == ' ' {
-        format!("\\{c}")
-    } else {
-        c.to_string()
     };
     Ok((rest, result))
 }
